@@ -10,6 +10,8 @@ RULES = {"C13.a", "C13.b", "C13.c", "C13.d", "C13.e", "C13.f"}
 
 
 def check(ctx):
+    from .common import compiled_scanner_is_frozen
+    compiled_scanner_is_frozen(ctx, "C02.m")   # nothing edits a compiled scanner after the pipeline produced it (closed writer sets)
     # (C14.d: the lock discipline — a failing build that blocks on the lock it already holds never returns its error and
     # stops every later build)
     sharing.analyze(ctx, RULES | {"C14.d"})
